@@ -752,6 +752,7 @@ def mpc_psi0(z, prec, rnd=round_fast):
     z2 = mpc_square(z, wp)
     t = mpc_one
     prev = mpc_zero
+    prev_size = finf
     k = 1
     eps = mpf_shift(fone, -wp+2)
     while 1:
@@ -760,9 +761,12 @@ def mpc_psi0(z, prec, rnd=round_fast):
         term = mpc_mpf_div(bern, mpc_mul_int(t, 2*k, wp), wp)
         s = mpc_sub(s, term, wp)
         szterm = mpc_abs(term, 10)
-        if k > 2 and mpf_le(szterm, eps):
+        # Stop when the terms are negligible, or (as in mpf_psi0) when the
+        # asymptotic series starts to diverge before reaching eps
+        if k > 2 and (mpf_le(szterm, eps) or mpf_le(prev_size, szterm)):
             break
         prev = term
+        prev_size = szterm
         k += 1
     return mpc_pos(s, prec, rnd)
 
